@@ -2,6 +2,8 @@ import Driver.Util
 import MpcVerif.Model.Mpa
 import MpcVerif.Model.Fold
 import MpcVerif.Model.FoldTable
+import MpcVerif.Model.FoldUses
+import MpcVerif.Model.MpaHist
 
 namespace Drv.C12
 open Mpc Mpc.Mpa Mpc.Fold
@@ -38,12 +40,15 @@ def mpaLine (args : List String) : String :=
       let z? : Option MInt := if alias then some x else Mpa.new zbits
       let r : Option String := do
         let z ← z?
+        -- the operands after the call: what they were before it (the receiver excepted)
+        let ya ← observe y
         if op == "obs" then
           let s ← observe x
-          pure ("ok " ++ s)
+          pure s!"ok {s} xa=[{s}] ya=[{ya}]"
         else if op == "cmp" then
           let c ← Mpa.cmp x y
-          pure s!"ok c={c}"
+          let xa ← observe x
+          pure s!"ok c={c} xa=[{xa}] ya=[{ya}]"
         else
           let res ← (match op with
             | "add" => Mpa.add z x y
@@ -60,7 +65,8 @@ def mpaLine (args : List String) : String :=
             | _ => none)
           let s ← observe res
           let c ← Mpa.cmp res y
-          pure s!"ok {s} c={c}"
+          let xa ← observe (if alias then res else x)
+          pure s!"ok {s} c={c} xa=[{xa}] ya=[{ya}]"
       r.getD "panic"
     | _, _, _, _ => "bad-op"
   | _ => "bad-op"
@@ -162,6 +168,87 @@ def identLine (args : List String) : String :=
     | _, _, _, _, _, _ => "bad-op"
   | _ => "bad-op"
 
+/-! ## Histories of mpa calls sharing operands (Model/MpaHist.lean) -/
+
+def parseHOp (s : String) : Option MpaHist.HOp :=
+  match s with
+  | "add" => some .add | "sub" => some .sub | "mul" => some .mul | "div" => some .div | "mod" => some .mod
+  | "and" => some .and | "or" => some .or | "xor" => some .xor | "andnot" => some .andNot
+  | "lsh" => some .lsh | "rsh" => some .rsh | "cmp" => some .cmp
+  | _ => none
+
+/-- receiver `f<bits>` (a fresh `mpa.New(bits)`) or `r<i>` (register i) -/
+def parseRecv (s : String) : Option MpaHist.Recv :=
+  if s.startsWith "f" then (s.drop 1).toNat?.map .fresh
+  else if s.startsWith "r" then (s.drop 1).toNat?.map .reg
+  else none
+
+/-- step `op.n.z.x.y` -/
+def parseStep (s : String) : Option MpaHist.Step :=
+  match s.splitOn "." with
+  | [op, n, z, x, y] => do pure ⟨← parseHOp op, ← n.toNat?, ← parseRecv z, ← x.toNat?, ← y.toNat?⟩
+  | _ => none
+
+def regsStr (regs : List MInt) : Option String := do
+  let obs ← regs.mapM observe
+  pure (" ; ".intercalate obs)
+
+/-- `mpah <spec>,<spec>,... <step>/<step>/...`: after every step every register (= `*mpa.Int` object), in
+register order; the model writes the receiver's register only. -/
+def mpahLine (args : List String) : String :=
+  match args with
+  | [specs, steps] =>
+    match (specs.splitOn ",").mapM parseSpec, (steps.splitOn "/").mapM parseStep with
+    | some regs, some ss =>
+      let rec go (regs : List MInt) (ss : List MpaHist.Step) (acc : String) (fuel : Nat) : String :=
+        match fuel, ss with
+        | 0, _ => acc
+        | _, [] => acc
+        | fuel + 1, s :: rest =>
+          match MpaHist.step regs s with
+          | none => acc ++ " | panic"
+          | some regs' =>
+            let tag : String :=
+              if s.op = .cmp then
+                match regs[s.x]?, regs[s.y]? with
+                | some x, some y => s!"c={(Mpa.cmp x y).getD 0}"
+                | _, _ => "c=?"
+              else match s.z with
+                | .fresh _ => s!"z={regs.length}"
+                | .reg i => s!"z={i}"
+            match regsStr regs' with
+            | none => acc ++ " | panic"
+            | some r => go regs' rest (acc ++ " | " ++ tag ++ " " ++ r) fuel
+      go regs ss "ok" (ss.length + 1)
+    | _, _ => "bad-op"
+  | _ => "bad-op"
+
+/-! ## One constant used several times (Model/FoldUses.lean) -/
+
+def parseDecl (s : String) : Option (Int × Form) :=
+  match s.splitOn ":" with
+  | [a, f] => do pure (← a.toInt?, ← parseForm f)
+  | _ => none
+
+def parseUse (s : String) : Option Use :=
+  match s.splitOn ":" with
+  | [op, l, r] => do pure ⟨← Fold.parseOp op, ← l.toNat?, ← r.toNat?⟩
+  | _ => none
+
+def parseUsesProg (args : List String) : Option UsesProg :=
+  match args with
+  | [_style, k, n, decls, uses, cons] => do
+    let us ← if uses == "-" then some [] else (uses.splitOn ",").mapM parseUse
+    pure ⟨← parseKind k, ← n.toNat?, ← (decls.splitOn ",").mapM parseDecl, us, ← (cons.splitOn ",").mapM parseCons⟩
+  | _ => none
+
+/-- `uses <var|const> <s|u> <n> <a:form,...> <op:l:r,...> <cons,...>`: outputs of the constant variant at
+`x = 0`; folding is pure (`pureFold`): the objects of the operands hold their declared values. -/
+def usesLine (args : List String) : String :=
+  match parseUsesProg args with
+  | some p => resStr (fun (l : List Nat) => " ".intercalate (l.map hexNat)) (usesOutputs cvName pureFold p)
+  | none => "bad-op"
+
 /-- Line protocol of property C12: `c12 <kind> <args...>`. -/
 def handle (args : List String) : String :=
   match args with
@@ -174,6 +261,8 @@ def handle (args : List String) : String :=
   | "multi" :: rest => multiLine rest
   | "ident" :: rest => identLine rest
   | "multiwhy" :: rest => multiWhyLine rest
+  | "mpah" :: rest => mpahLine rest
+  | "uses" :: rest => usesLine rest
   | _ => "bad-op"
 
 end Drv.C12
